@@ -59,7 +59,7 @@ BOUNDS = {
         # (alphabet, depth, [(spec, index of the start time)], labels, mutations)
         "searches": [
             ("por", 4, [("full3", 0)], [None, "EOL"], MUTS_Q),
-            ("por", 3, [("full3", 5)], [None, "EOL"], MUTS_Q),
+            ("por", 3, [("full3", 5)], [None, "EOL"], MUTS_Q, "interleave"),  # observers after every operation
         ],
         "split_max": 3,
         # Part B: (nCycles, burnSteps) shapes of the fault-free family / of the base fault enumeration /
@@ -74,7 +74,7 @@ BOUNDS = {
         "searches": [
             ("full", 4, [("full3", 0)], [None, "EOL", "x"], MUTS_Q),  # all orders: validates the reduction
             ("por", 5, [("full3", 0), ("full7", 5)], [None, "EOL"], MUTS_Q),
-            ("por", 4, [("full3", 3)], [None, "EOL", "x"], PRIMS),
+            ("por", 4, [("full3", 3)], [None, "-special", "x"], PRIMS, "interleave"),
         ],
         "split_max": 4,
         "shapes_free": [(1, 0), (1, 1), (1, 2), (1, 3), (2, 1), (2, 2), (2, 3), (3, 1), (3, 2), (3, 3)],
@@ -359,13 +359,19 @@ def _value(pr, kind, serial, param):
     return e[param]
 
 
-def _expected_history(st, kind, serial, param, steps):
+def _view(st, view):
+    """The snapshots a database is expected to hold: ordered [(key, projection)] (default: the model)."""
+    return [(k, st.model[k]["proj"]) for k in sorted(st.model)] if view is None else view
+
+
+def _expected_history(st, kind, serial, param, steps, view=None):
     """Per (cycle,node): the list of admissible values (more than one only when a labelled and an
     unlabelled snapshot share the pair and no explicit steps were given), in the order a history
     must list them: stored steps chronologically (or as requested), the live step last."""
     per = {}
     order = []
-    keys = sorted(st.model)
+    held = dict(_view(st, view))
+    keys = [k for k, _ in _view(st, view)]
     if steps is not None:
         keys = [tuple(s) + ("",) for s in steps]
     for key in keys:
@@ -373,15 +379,15 @@ def _expected_history(st, kind, serial, param, steps):
         if cn not in per:
             per[cn] = []
             order.append(cn)
-        per[cn].append(_value(st.model[key]["proj"], kind, serial, param))
+        per[cn].append(_value(held[key], kind, serial, param))
     if st.now not in per:  # documented addition: the live value at the live (cycle, node)
         per[st.now] = [_value(proj(st.r), kind, serial, param)]
         order.append(st.now)
     return order, per
 
 
-def _cmp_history(st, got, kind, serial, param, steps, what, out):
-    order, per = _expected_history(st, kind, serial, param, steps)
+def _cmp_history(st, got, kind, serial, param, steps, what, out, view=None):
+    order, per = _expected_history(st, kind, serial, param, steps, view)
     rows = got.get(param)
     if rows is None:
         out.append(("history-missing-param", "%s: parameter %s absent from the returned history" % (what, param)))
@@ -396,58 +402,66 @@ def _cmp_history(st, got, kind, serial, param, steps, what, out):
             return
 
 
-def obs_history(st):
+def obs_history(st, db=None, view=None, light=False, where=""):
+    """History queries on ``db`` (default: the database under test) against the snapshots it is
+    expected to hold (``view``; default: the model). ``light``: without explicit time steps only."""
     out = []
-    db = st.db
-    if not st.model:
+    db = st.db if db is None else db
+    held = _view(st, view)
+    if not held:
         return out  # an empty database lists no step at all (the live value is only added to listed parameters)
-    stored = sorted({k[:2] for k in st.model if k[2] == ""})
+    stored = sorted({k[:2] for k, _ in held if k[2] == ""})
     step_sets = [None]
-    if stored:
+    if stored and not light:
         step_sets.append(stored)
-    if len(stored) >= 2:
+    if len(stored) >= 2 and not light:
         step_sets.append(stored[::-2])  # a strict subset, not in chronological order
     blocks = [st.b0, st.b1]
     for steps in step_sets:
-        tag = "" if steps is None else " timeSteps=%s" % (steps,)
+        tag = where + ("" if steps is None else " timeSteps=%s" % (steps,))
         try:
             hs = db.getHistories(blocks, BLOCK_PARAMS, None if steps is None else list(steps))
             for b, nm in zip(blocks, ("b0", "b1")):
                 g = _norm_hist(hs[b])
                 for p in BLOCK_PARAMS:
-                    _cmp_history(st, g, "blocks", int(b.p.serialNum), p, steps, "getHistories(%s)%s" % (nm, tag), out)
-            g = _norm_hist(db.getHistory(st.b0, ["power"], None if steps is None else list(steps)))
-            _cmp_history(st, g, "blocks", int(st.b0.p.serialNum), "power", steps, "getHistory(b0)%s" % tag, out)
+                    _cmp_history(st, g, "blocks", int(b.p.serialNum), p, steps, "getHistories(%s)%s" % (nm, tag), out, view)
             g = _norm_hist(db.getHistory(st.A0, ["location", "numMoves"], None if steps is None else list(steps)))
             for p in ("location", "numMoves"):
-                _cmp_history(st, g, "assems", int(st.A0.p.serialNum), p, steps, "getHistory(A0)%s" % tag, out)
-            g = _norm_hist(db.getHistory(st.r.core, ["keff"], None if steps is None else list(steps)))
-            _cmp_history(st, g, "core", None, "keff", steps, "getHistory(core)%s" % tag, out)
-            g = _norm_hist(db.getHistory(st.r, ["cycle", "timeNode"], None if steps is None else list(steps)))
-            for p in ("cycle", "timeNode"):
-                _cmp_history(st, g, "reactor", None, p, steps, "getHistory(reactor)%s" % tag, out)
+                _cmp_history(st, g, "assems", int(st.A0.p.serialNum), p, steps, "getHistory(A0)%s" % tag, out, view)
+            if not light:
+                g = _norm_hist(db.getHistory(st.b0, ["power"], None if steps is None else list(steps)))
+                _cmp_history(st, g, "blocks", int(st.b0.p.serialNum), "power", steps, "getHistory(b0)%s" % tag, out, view)
+                g = _norm_hist(db.getHistory(st.r.core, ["keff"], None if steps is None else list(steps)))
+                _cmp_history(st, g, "core", None, "keff", steps, "getHistory(core)%s" % tag, out, view)
+                g = _norm_hist(db.getHistory(st.r, ["cycle", "timeNode"], None if steps is None else list(steps)))
+                for p in ("cycle", "timeNode"):
+                    _cmp_history(st, g, "reactor", None, p, steps, "getHistory(reactor)%s" % tag, out, view)
         except Exception as e:
             out.append(("history-raises:" + type(e).__name__, "history query%s raised %r" % (tag, e)))
     # by location: whichever block sat where b0 sits now
-    if st.model:
-        try:
-            g = _norm_hist(db.getHistoryByLocation(st.b0, ["power"]))
-            here = _ints(st.b0.spatialLocator.getCompleteIndices())
-            exp = {}
-            for key in sorted(st.model):
-                vals = [e["power"] for e in st.model[key]["proj"]["blocks"].values() if e["loc"] == here]
-                exp.setdefault(key[:2], []).extend(vals)
-            rows = g.get("power", [])
-            if [(r[0], r[1]) for r in rows] != list(exp):
-                out.append(("history-bylocation-steps", "getHistoryByLocation(b0): steps %s, stored %s" % ([(r[0], r[1]) for r in rows], list(exp))))
-            else:
-                for c, n, v in rows:
-                    if v not in exp[(c, n)]:
-                        out.append(("history-bylocation-value", "getHistoryByLocation(b0)[power] at (%d,%d) = %r, the block at %s had %r" % (c, n, v, here, exp[(c, n)])))
-                        break
-        except Exception as e:
-            out.append(("history-bylocation-raises:" + type(e).__name__, "getHistoryByLocation raised %r" % (e,)))
+    try:
+        g = _norm_hist(db.getHistoryByLocation(st.b0, ["power"]))
+        here = _ints(st.b0.spatialLocator.getCompleteIndices())
+        exp = {}
+        for key, pr in held:
+            vals = [e["power"] for e in pr["blocks"].values() if e["loc"] == here]
+            exp.setdefault(key[:2], []).extend(vals)
+        rows = g.get("power", [])
+        if [(r[0], r[1]) for r in rows] != list(exp):
+            out.append(("history-bylocation-steps", "getHistoryByLocation(b0)%s: steps %s, stored %s" % (where, [(r[0], r[1]) for r in rows], list(exp))))
+        else:
+            for c, n, v in rows:
+                if v not in exp[(c, n)]:
+                    out.append(("history-bylocation-value", "getHistoryByLocation(b0)%s[power] at (%d,%d) = %r, the block at %s had %r" % (where, c, n, v, here, exp[(c, n)])))
+                    break
+    except Exception as e:
+        out.append(("history-bylocation-raises:" + type(e).__name__, "getHistoryByLocation%s raised %r" % (where, e)))
     return out
+
+
+def raw_names(h5):
+    """Top-level members of an HDF5 file, read without ARMI's own idea of what a time step name is."""
+    return sorted(h5.keys())
 
 
 def _open_db(st, name, perm):
@@ -483,9 +497,13 @@ def obs_merge(st, load_one):
             m.mergeHistory(st.db, sc, sn)
             got = list(m.keys())
             want = ["/" + gname(k) for k in exp]
+            raw = [n for n in raw_names(m.h5db) if n != "inputs"]
             if got != want:
                 out.append(("merge-steps", "mergeHistory(start=(%d,%d)) copied %s, expected exactly the steps before the start: %s" % (sc, sn, got, want)))
-            elif i == len(starts) - 1:  # the largest merge: every copied step byte-equal
+            elif raw != sorted(gname(k) for k in exp):
+                out.append(("merge-raw-names", "mergeHistory(start=(%d,%d)): the new file holds the groups %s, expected %s" % (sc, sn, raw, sorted(gname(k) for k in exp))))
+            elif i == len(starts) - 1:  # the largest merge: every copied step byte-equal, history as in the source
+                out += [(k_, "on the merged database: " + m_) for k_, m_ in obs_history(st, m, [(k, st.model[k]["proj"]) for k in exp], light=True, where=" after mergeHistory(start=(%d,%d))" % (sc, sn))]
                 for k in exp:
                     if gdigest(m.h5db[gname(k)]) != st.model[k]["dig"]:
                         out.append(("merge-changed", "mergeHistory(start=(%d,%d)): copied %s is not byte-equal to the snapshot written" % (sc, sn, gname(k))))
@@ -511,7 +529,7 @@ def split_expect(keep):
     return minc, [((c - minc, n), (c, n)) for c, n in sorted(keep)]
 
 
-def check_split(st, keep, tag, report_shift_attr=True, load_one=True, light=False):
+def check_split(st, keep, tag, report_shift_attr=True, load_one=True, light=False, query_first=True, load_first=False):
     """splitDatabase(keep) on a copy of st.db; returns [(key, msg)]. ``light``: steps and cycle
     numbers only (no byte comparison, no load)."""
     import h5py
@@ -526,12 +544,23 @@ def check_split(st, keep, tag, report_shift_attr=True, load_one=True, light=Fals
     what = "splitDatabase(keep=%s)" % (keep,)
     try:
         sd = _open_db(st, src, "a")
+        if query_first:
+            # observers first, on the very object that is split afterwards (whatever they leave
+            # behind must not survive the renumbering): listing, history, one load
+            if list(sd.keys()) != ["/" + gname(k) for k in all_keys]:
+                out.append(("keys", "%s: keys() before the split = %s" % (what, list(sd.keys()))))
+            out += obs_history(st, sd, None, light=True, where=" before " + what)
+            if load_first:
+                k0 = tuple(sorted(keep)[0]) + ("",)
+                d = observe.diff(st.model[k0]["proj"], proj(sd.load(k0[0], k0[1])))
+                if d:
+                    out.append(("load-differs", "%s: load(%s) before the split: %s" % (what, gname(k0), d[:4])))
         back = sd.splitDatabase([tuple(k) for k in keep], "-bk")
         if os.path.abspath(back) != os.path.join(st.dir, bk) or not os.path.exists(back):
             out.append(("split-backup-path", "%s returned %r, expected %s" % (what, back, bk)))
         else:
             with h5py.File(back, "r") as f:
-                names = sorted(n for n in f if n.startswith("c") and n[1:3].isdigit())
+                names = [n for n in raw_names(f) if n != "inputs"]
                 if names != [gname(k) for k in all_keys]:
                     out.append(("split-backup-steps", "%s: the full-history file holds %s, expected %s" % (what, names, [gname(k) for k in all_keys])))
                 elif not light:
@@ -541,8 +570,11 @@ def check_split(st, keep, tag, report_shift_attr=True, load_one=True, light=Fals
                             break
         got = list(sd.keys())
         want = ["/" + gname(new + ("",)) for new, old in pairs]
+        raw = [n for n in raw_names(sd.h5db) if n != "inputs"]
         if got != want:
             out.append(("split-steps", "%s kept %s, expected exactly %s (cycles renumbered from %d)" % (what, got, want, minc)))
+        elif raw != sorted(w[1:] for w in want):
+            out.append(("split-raw-names", "%s: the split file holds the groups %s, expected exactly %s" % (what, raw, sorted(w[1:] for w in want))))
         else:
             if "inputs" not in sd.h5db:
                 out.append(("split-inputs", "%s: the inputs group was not carried over" % what))
@@ -561,23 +593,15 @@ def check_split(st, keep, tag, report_shift_attr=True, load_one=True, light=Fals
                 if ga != new and report_shift_attr:
                     out.append(("split-cycle-attr-stale", "%s: group %s (step %s renumbered) still carries attrs cycle,timeNode = %s; histories are keyed by these" % (what, gname(new + ("",)), old, ga)))
                     break
-            if report_shift_attr and not out:
-                # user-visible consequence: a history of the split database must list its own steps
-                try:
-                    rows = _norm_hist(sd.getHistory(st.b0, ["power"]))["power"]
-                    news = [p[0] for p in pairs]
-                    hk = [(r[0], r[1]) for r in rows]
-                    ts = news + ([st.now] if st.now not in news else [])
-                    if hk != ts:
-                        out.append(("split-history-steps", "%s: getHistory on the split database lists steps %s but it holds %s (live step %s)" % (what, hk, list(sd.genTimeSteps()), st.now)))
-                    else:
-                        for (c, n, v), (new, old) in zip(rows, pairs):
-                            e = st.model[old + ("",)]["proj"]["blocks"][str(int(st.b0.p.serialNum))]["power"]
-                            if v != e:
-                                out.append(("split-history-value", "%s: history value at %s is %r, written %r" % (what, new, v, e)))
-                                break
-                except Exception as e:
-                    out.append(("split-history-raises:" + type(e).__name__, "%s: getHistory on the split database raised %r" % (what, e)))
+            if not out:
+                # the same object, queried again: a history of the split database lists its own steps
+                # with the values of the steps kept
+                view = []
+                for new, old in pairs:
+                    pr = json.loads(json.dumps(st.model[old + ("",)]["proj"]))
+                    pr["cycle"] = new[0]
+                    view.append((new + ("",), pr))
+                out += [("split-" + k_, m_) for k_, m_ in obs_history(st, sd, view, light=True, where=" after " + what)]
             if load_one and not light and not out:
                 new, old = pairs[-1]
                 pr = proj(sd.load(new[0], new[1]))
@@ -610,10 +634,9 @@ def obs_split(st):
     for i, keep in enumerate(keeps):
         # Full comparison (bytes, full-history file, load) for the whole set and the non-prefix subset,
         # steps and cycle numbers for the shorter prefixes (Part S compares bytes for ALL subsets).
-        # The stale group attribute (and what follows from it) is decided by Part S; reported here
-        # it would stop the search behind most states.
+        # On the object that is split, the history observers run first for the two fully compared subsets.
         full = i >= len(stored) - 1
-        out += check_split(st, [list(k) for k in keep], "%d" % i, report_shift_attr=False, load_one=(i == len(keeps) - 1), light=not full)
+        out += check_split(st, [list(k) for k in keep], "%d" % i, load_one=(i == len(keeps) - 1), light=not full, query_first=full)
     # asking for a step that is not stored must be refused
     absent = [t for t in TIMES if t not in stored]
     if stored and absent:
@@ -649,7 +672,10 @@ def obs_listing(st):
         want = [k[:2] for k in keys]
         if got != want:
             out.append(("genTimeSteps", "genTimeSteps() = %s, written %s (one pair per snapshot, chronological)" % (got, want)))
-        labels = ["", "EOL", "x", "error"]
+        labels = ["", "EOL", "x", "error"] + [l for l in st.init["labels"] if l and l not in ("EOL", "x")]
+        raw = [n for n in raw_names(st.db.h5db) if n != "inputs"]
+        if raw != sorted(gname(k) for k in keys):
+            out.append(("raw-names", "the file holds the groups %s, written %s" % (raw, sorted(gname(k) for k in keys))))
         for t in TIMES:
             for lab in labels:
                 has = bool(st.db.hasTimeStep(t[0], t[1], lab))
@@ -689,11 +715,22 @@ def expand(item):
     st = St(init)
     try:
         out = "ok"
+        mid = []
         for k, op in enumerate(hist):
             out = apply(st, op)
             if k < len(outs) and out != outs[k]:
                 raise RuntimeError("prefix replay diverged at %d %s: %s != %s" % (k, op, out, outs[k]))
-        vl = list(st.viols)
+            if init.get("interleave") and k < len(hist) - 1 and not mid:
+                # observers as transitions: queried after EVERY operation on the same Database object,
+                # so that whatever an observer leaves behind meets every later mutation
+                mid = obs_history(st) + obs_listing(st)
+                if st.model and not mid and op[0] == "write":
+                    kk = sorted(st.model)[-1 if k % 2 else 0]
+                    d = observe.diff(st.model[kk]["proj"], proj(st.db.load(kk[0], kk[1], statePointName=kk[2] or None)))
+                    if d:
+                        mid.append(("load-differs", "load(%s) does not return the state as of its write: %s" % (gname(kk), d[:4])))
+                mid = [(k_, "after operation %d: %s" % (k + 1, m_)) for k_, m_ in mid]
+        vl = list(st.viols) + mid
         if not vl:
             live_before = observe.digest(observe.obs(st.r, rank=True))
             vl += obs_history(st)
@@ -777,7 +814,7 @@ def split_item(item):
             res["n"] += 1
             if min(c for c, n in keep) > 0:
                 res["shifted"] += 1
-            for key, msg in st.viols + check_split(st, keep, "%d" % i, report_shift_attr=True, load_one=True):
+            for key, msg in st.viols + check_split(st, keep, "%d" % i, load_one=True, query_first=(i % 3 != 2), load_first=(i % 3 == 0)):
                 if key in seen:
                     continue
                 seen.add(key)
@@ -793,6 +830,29 @@ def split_items(ctx, nmax):
     for r in range(1, nmax + 1):
         for comb in itertools.combinations(range(len(TIMES)), r):
             out.append({"times": list(comb), "eol": (len(out) % 3 == 2), "seed": ctx.seed, "keeps": None})
+    return out
+
+
+# =============================================================================================
+# Part L - labels with unusual but legal characters
+# =============================================================================================
+
+# "-", ".", " ", digit-leading, a label that looks like a time-step name, case, a non-ASCII letter,
+# the documented "c00n00-special" form
+LABEL_SETS = [["-special"], ["rev1.1"], ["pre shuffle"], ["1st"], ["c00n00"], ["\u00e9tat"], ["_x"], ["EOL", "eol"]]
+
+
+def label_items(ctx):
+    """Fixed histories run through the Part A machinery (all observers after every operation): a
+    labelled and an unlabelled snapshot on the same pair in both orders, state changed and two
+    assemblies swapped in between, a refused re-write of the labelled name, a later pair."""
+    out = []
+    for ls in LABEL_SETS:
+        a, b_ = ls[0], ls[-1]
+        init = {"spec": "full3", "t0": 0, "seed": ctx.seed, "alpha": "por", "labels": [None] + ls, "muts": MUTS_Q, "interleave": True}
+        out.append({"init": init, "hist": [["write", None], ["mut", "blk"], ["write", a], ["time"], ["mut", "mov"], ["write", b_], ["write", None], ["write", b_]], "outs": []})
+        if ls[0] in ("-special", "c00n00", "EOL") or not ctx.quick:
+            out.append({"init": dict(init, t0=2), "hist": [["write", a], ["mut", "mov"], ["write", None], ["time"], ["time"], ["mut", "core"], ["write", b_], ["write", a]], "outs": []})
     return out
 
 
@@ -1388,6 +1448,12 @@ def run(ctx):
     ctx.count("restart/start points", nrestart)
     ctx.count("restart/steps merged and compared", sum(r["copied"] for r in rres))
     ctx.log("part R: %d restarts" % nrestart)
+    # ---- Part L
+    litems = label_items(ctx) if "S" in parts else []
+    for r in core.pmap(MOD, "expand", litems):
+        ctx.add_violations(r["viols"])
+    ctx.count("labels/histories", len(litems))
+    ctx.count("labels/label sets", len(LABEL_SETS) if litems else 0)
     # ---- Part C
     citems = ctxmgr_items(ctx) if "S" in parts else []
     for r in core.pmap(MOD, "ctxmgr_item", citems):
@@ -1405,12 +1471,12 @@ def run(ctx):
     ctx.log("part S: %d databases, %d splits" % (len(items), nsplit))
     # ---- Part A
     total = {}
-    for alpha, depth, inits, labels, muts in b["searches"]:
-        ii = [{"spec": s, "t0": t0, "seed": ctx.seed, "alpha": alpha, "labels": labels, "muts": muts} for s, t0 in inits]
+    for alpha, depth, inits, labels, muts, *mode in b["searches"]:
+        ii = [{"spec": s, "t0": t0, "seed": ctx.seed, "alpha": alpha, "labels": labels, "muts": muts, "interleave": "interleave" in mode} for s, t0 in inits]
         s = explore.bfs(ctx, MOD, ii, depth)
         s["alphabet"], s["depth"] = alpha, depth
         explore.merge_stats(total, s)
-        total["searches"][-1].update(alphabet=alpha, depth=depth, inits=[[s_, TIMES[t0]] for s_, t0 in inits], labels=labels, mutations=muts)
+        total["searches"][-1].update(alphabet=alpha, depth=depth, inits=[[s_, TIMES[t0]] for s_, t0 in inits], labels=labels, mutations=muts, observers_after_every_operation="interleave" in mode)
         for k, v in s["ops"].items():
             ctx.count("op/" + k, v)
         for k, v in s["outcomes"].items():
@@ -1419,7 +1485,7 @@ def run(ctx):
         ctx,
         total,
         {
-            "evaluations": len(cfgs) + len(cases) + nsplit + nrestart + len(citems),
+            "evaluations": len(cfgs) + len(cases) + nsplit + nrestart + len(citems) + len(litems),
             "distinct_nontrivial": len(sigs) + sum(r["shifted"] for r in sres),
             "rule": "fault enumeration: one fault-free real operator run per member of the configuration family (every node + EOL present exactly once, flag, every snapshot loaded and compared), and for the enumerated members one run per interaction point with the fault raised exactly there; "
             "non-trivial+distinct = distinct (configuration, set of snapshots left in the file, completion flag) among points inside the window. "
